@@ -772,7 +772,8 @@ func TestVerifC04Report(t *testing.T) {
 		}
 	}
 	var k int64
-	run := func(cs []one) {
+	var run func(cs []one)
+	runMode := func(cs []one, immediate bool) {
 		k++
 		if !r.Mine(k) {
 			return
@@ -825,7 +826,11 @@ func TestVerifC04Report(t *testing.T) {
 					res.recordSideband(n, "peer feedback")
 				}
 			}
-			synctest.Wait()
+			if !immediate {
+				synctest.Wait()
+			}
+			// (immediate: the report is asked for right after the last outcome was recorded, before the
+			// goroutines that fetch the traces have had a chance to run)
 			p := &c11Printer{}
 			ok = res.report(p)
 			text = strings.Join(p.lines, "\n")
@@ -863,6 +868,16 @@ func TestVerifC04Report(t *testing.T) {
 				}
 			}
 		}
+		// a failed, unmarked case whose trace was completed is reported with that trace
+		wantTraces := 0
+		for _, c := range cs {
+			if c.Outcome == "fail" && c.Mark == "" && (c.Trace == "on-before" || c.Trace == "on-after") {
+				wantTraces++
+			}
+		}
+		if got := strings.Count(text, "---- HTTP Trace ----"); got < wantTraces {
+			r.Violate("report-trace-missing", fmt.Sprintf("history %+v (report immediately=%v): %d failed case(s) have a completed trace but the report shows %d trace(s):\n%s", cs, immediate, wantTraces, got, text), map[string]any{"history": cs})
+		}
 		r.Outcome(fmt.Sprintf("ok=%v want=%v", ok, want))
 		if ok && !want {
 			r.Violate("report-success-despite-unmet-case", fmt.Sprintf("history %+v: report() returns success although not every case ran and met its expectation:\n%s", cs, text), map[string]any{"history": cs})
@@ -891,6 +906,15 @@ func TestVerifC04Report(t *testing.T) {
 		}
 		if k%997 == 1 {
 			r.Sample(cs)
+		}
+	}
+	run = func(cs []one) {
+		runMode(cs, false)
+		for _, c := range cs {
+			if c.Trace != "off" && c.Outcome == "fail" {
+				runMode(cs, true)
+				break
+			}
 		}
 	}
 	for _, a := range singles {
